@@ -25,10 +25,11 @@ From Ont Require Import Lib.Bytes Gen.AuthConsts.
 Local Open Scope N_scope.
 Open Scope bool_scope.
 
-Definition addr := bytes.
-Definition ontid := bytes.
-Definition role := bytes.
-Definition fname := bytes.   (* a Go string, as its bytes *)
+(* Readable names for byte strings (notations, so that terms stay syntactically [bytes]). *)
+Notation addr := bytes (only parsing).
+Notation ontid := bytes (only parsing).
+Notation role := bytes (only parsing).
+Notation fname := bytes (only parsing).   (* a Go string, as its bytes *)
 
 (** state.go: AuthToken, DelegateStatus (embeds AuthToken). *)
 Record token := mkTok { t_role : role; t_expire : N; t_level : N }.
